@@ -1140,29 +1140,53 @@ impl Value {
 
 impl Value {
     fn deep_copy(self, vm: &mut VmGreenThread) -> Value {
-        match self.1 {
-            ValueTag::Int | ValueTag::Float | ValueTag::Bool | ValueTag::Addr => self,
+        self.deep_copy_helper(vm, &mut std::collections::HashMap::new())
+    }
+
+    // `copies` maps the address of every object copied so far to its copy: an object that is
+    // reached twice (shared, or part of a cycle) is copied once.
+    // A copy is allocated and recorded before its children are copied into it. The collector
+    // does not run in between (allocation only adds to the gc debt).
+    fn deep_copy_helper(
+        self,
+        vm: &mut VmGreenThread,
+        copies: &mut std::collections::HashMap<u64, Value>,
+    ) -> Value {
+        if self.1.is_pointer()
+            && let Some(copy) = copies.get(&self.0)
+        {
+            return *copy;
+        }
+        let placeholder = Value::from(0 as AbraInt);
+        let copy: Value = match self.1 {
+            ValueTag::Int | ValueTag::Float | ValueTag::Bool | ValueTag::Addr => return self,
             ValueTag::Struct => {
-                let struct_obj = self.get_struct(vm);
-                let mut fields = vec![];
-                for field in struct_obj.get_fields() {
-                    fields.push(field.deep_copy(vm));
+                let fields = self.get_struct(vm).get_fields();
+                let copy: Value = StructObject::new(vec![placeholder; fields.len()], vm).into();
+                copies.insert(self.0, copy);
+                for (i, field) in fields.iter().enumerate() {
+                    let field = field.deep_copy_helper(vm, copies);
+                    unsafe { copy.get_struct_mut(vm) }.get_fields_mut()[i] = field;
                 }
-                StructObject::new(fields, vm).into()
+                copy
             }
             ValueTag::Array => {
-                let array_obj = self.get_array(vm);
-                let mut elems = vec![];
-                for elem in &array_obj.data {
-                    elems.push(elem.deep_copy(vm));
+                let elems = &self.get_array(vm).data;
+                let copy: Value = ArrayObject::new(vec![placeholder; elems.len()], vm).into();
+                copies.insert(self.0, copy);
+                for (i, elem) in elems.iter().enumerate() {
+                    let elem = elem.deep_copy_helper(vm, copies);
+                    unsafe { copy.get_array_mut(vm) }.data[i] = elem;
                 }
-                ArrayObject::new(elems, vm).into()
+                copy
             }
             ValueTag::Variant => {
                 let variant_obj = self.get_variant(vm);
-                let tag = variant_obj.tag;
-                let val = variant_obj.val.deep_copy(vm);
-                EnumObject::new(tag, val, vm).into()
+                let copy_ptr = EnumObject::new(variant_obj.tag, placeholder, vm);
+                copies.insert(self.0, copy_ptr.into());
+                let val = variant_obj.val.deep_copy_helper(vm, copies);
+                unsafe { (*copy_ptr).val = val };
+                copy_ptr.into()
             }
             ValueTag::String => {
                 let content = self.view_string(vm);
@@ -1172,7 +1196,9 @@ impl Value {
                 let channel_obj = unsafe { self.get_channel(vm) };
                 channel_obj.copy(vm)
             }
-        }
+        };
+        copies.insert(self.0, copy);
+        copy
     }
 }
 
@@ -2274,8 +2300,10 @@ impl VmGreenThread {
                 new_thread.pc = target;
                 let captures = self.pop_n(ncaptures as usize);
                 // TODO: must be made incremental
+                // one map for all captures: an object reachable from two captures is copied once
+                let mut copies = std::collections::HashMap::new();
                 for capture in captures {
-                    let copied_val = capture.deep_copy(&mut new_thread);
+                    let copied_val = capture.deep_copy_helper(&mut new_thread, &mut copies);
                     new_thread.push(copied_val);
                 }
                 // new_thread.stack_base += ncaptures as usize;
